@@ -97,7 +97,7 @@ pub fn run(ctx: &mut Ctx) {
     for (n, ok) in rsm4::selftest() {
         ctx.selftest(&n, ok);
     }
-    ctx.require(&["openssl_modes", "len_sweep", "ctr_carry", "ctr_wrap", "random_long", "bad_iv_len", "bad_iv_data_len=0", "cbc_bad_len", "cbc_empty", "cbc_bad_pad_byte", "cbc_lenient_pad", "beyond_2^8_blocks", "beyond_2^16_blocks"]);
+    ctx.require(&["openssl_modes", "len_sweep", "ctr_carry", "ctr_wrap", "random_long", "bad_iv_len", "bad_iv_data_len=0", "cbc_bad_len", "cbc_empty", "cbc_bad_pad_byte", "cbc_lenient_pad", "beyond_2^8_blocks", "beyond_2^16_blocks", "mode_object_history"]);
     for m in MODES {
         for r in 0..16 {
             let s = format!("{}_len_mod16={}", mode_name(m), r);
@@ -228,8 +228,68 @@ pub fn run(ctx: &mut Ctx) {
         }
     }
 
+    // --- histories on ONE mode object: messages of different lengths and IVs, encryptions and decryptions interleaved,
+    // a failing call in between; every result must equal the reference's for that call alone. Also aliasing: data equal
+    // to the key, to the IV, IV equal to the key.
+    {
+        let nh = ctx.n(24, 600);
+        let mut ph = ctx.prng("history");
+        for i in 0..nh {
+            let sub = ph.next();
+            if !ctx.mine(i) {
+                continue;
+            }
+            let mut q = Prng::new(sub, "h");
+            let m = MODES[(i % 4) as usize];
+            let mn = mode_name(m);
+            let key: [u8; 16] = q.arr();
+            let Some(c) = mk(ctx, m, &key) else { continue };
+            let steps = 3 + q.below(10);
+            for step in 0..steps {
+                let iv: [u8; 16] = match q.below(6) {
+                    0 => key,
+                    1 => [0u8; 16],
+                    _ => q.arr(),
+                };
+                let len = match q.below(6) {
+                    0 => 0usize,
+                    1 => 16,
+                    2 => 15 + 16 * q.below(4) as usize,
+                    _ => q.below(100) as usize,
+                };
+                let data = match q.below(5) {
+                    0 if len == 16 => key.to_vec(),
+                    1 if len == 16 => iv.to_vec(),
+                    _ => q.bytes(len),
+                };
+                let w = json!({"mode": mn, "key": hex::encode(key), "iv": hex::encode(iv), "data": hx(&data), "step": step, "history": "one mode object, several calls"});
+                ctx.eval();
+                ctx.class("mode_object_history");
+                match q.below(5) {
+                    0 => {
+                        // a failing call must not disturb the following ones
+                        let _ = guard(|| c.encrypt(&data, &iv[..7]));
+                    }
+                    1 | 2 => {
+                        let expect = rsm4::mode_encrypt(m, &key, &iv, &data);
+                        match guard(|| c.encrypt(&data, &iv)) {
+                            Outcome::Ret(Ok(v)) if v == expect => {}
+                            o => ctx.violation(&format!("{}.encrypt:history:{}", mn, if let Outcome::Ret(Ok(_)) = &o { "ciphertext-mismatch" } else { oc(&o) }), w),
+                        }
+                    }
+                    _ => {
+                        let ct = rsm4::mode_encrypt(m, &key, &iv, &data);
+                        match guard(|| c.decrypt(&ct, &iv)) {
+                            Outcome::Ret(Ok(v)) if v == data => {}
+                            o => ctx.violation(&format!("{}.decrypt:history:{}", mn, if let Outcome::Ret(Ok(_)) = &o { "plaintext-mismatch" } else { oc(&o) }), w),
+                        }
+                    }
+                }
+            }
+        }
+    }
+
     // --- error cases
-    let mut prng = ctx.prng("errors");    // --- error cases
     let mut prng = ctx.prng("errors");
     idx = 0;
     // IV lengths 0..=32 except 16, all 8 mode/direction pairs
